@@ -68,6 +68,13 @@ Proof.
   intros Hin. apply H2. apply in_or_app. left. exact Hin.
 Qed.
 
+Lemma NoDup_app_intro {A} (a b : list A) : NoDup a -> NoDup b -> (forall x, In x a -> In x b -> False) -> NoDup (a ++ b).
+Proof.
+  induction a as [|y a IH]; simpl; intros Ha Hb D; [exact Hb|]. inversion Ha; subst. constructor.
+  - intros Hin. apply in_app_or in Hin. destruct Hin as [Hin|Hin]; [tauto|]. apply (D y); [left; reflexivity|exact Hin].
+  - apply IH; auto. intros x Hx1 Hx2. apply (D x); [right; exact Hx1|exact Hx2].
+Qed.
+
 Lemma OInv0 : OInv pool0.
 Proof.
   constructor; simpl.
@@ -181,14 +188,21 @@ Proof. induction os as [|o os IH]; simpl; intros p H; [exact H|]. apply IH. appl
    descending and is the only strictly descending arrangement of the selected entries *)
 Theorem extraction_order_unique os :
   let p := fold_left (fun q o => fst (step q o)) os pool0 in
-  forall sel, In sel [filter notFin (regList p); pendF p; pendR p ++ filter notRel (regList p); pendR p] ->
+  forall sel, In sel [pendF p ++ filter notFin (regList p); pendF p; pendR p ++ filter notRel (regList p); pendR p] ->
   StronglySorted sdesc (sort_desc sel) /\
   forall l, StronglySorted sdesc l -> Permutation l sel -> l = sort_desc sel.
 Proof.
   intros p sel Hin. assert (O : OInv p) by (apply OInv_run, OInv0). destruct O as [L K R F FR].
   assert (ND : NoDup (map eOrd sel)).
   { simpl in Hin. destruct Hin as [<-|[<-|[<-|[<-|[]]]]].
-    - apply nodup_ords_filter. unfold ords in *. rewrite map_app in R. apply nodup_app_r in R. exact R.
+    - (* pending entries and not-yet-finalised register entries have different orders (o_pfreg) *)
+      assert (R1 : NoDup (ords (regList p))) by (unfold ords in *; rewrite map_app in R; apply nodup_app_r in R; exact R).
+      unfold ords. rewrite map_app. apply NoDup_app_intro.
+      + exact F.
+      + apply (nodup_ords_filter notFin _ R1).
+      + intros x H1 H2. apply in_map_iff in H1. destruct H1 as (e & <- & He).
+        apply in_map_iff in H2. destruct H2 as (c & Ec & Hc). apply filter_In in Hc. destruct Hc as [Hc NF].
+        unfold notFin in NF. rewrite (FR e c He Hc (eq_sym Ec)) in NF. discriminate.
     - exact F.
     - apply nodup_ords_app_filter. exact R.
     - unfold ords in R. rewrite map_app in R. apply nodup_app_l in R. exact R. }
